@@ -133,6 +133,39 @@ func c05Messages(r *rand.Rand, i int) []hostileMsg {
 				add("seq-header-corrupt/video", 9, b)
 			}
 		}
+		// sequence-header payloads that carry Annex-B data instead of a configuration record
+		// (lal falls back to a start-code scan for HEVC): start codes back to back, at the very
+		// end, 3-byte codes, parameter-set and other NAL types, empty units
+		for k := 0; k < 150; k++ {
+			for _, hdr := range [][]byte{{0x1c, 0, 0, 0, 0}, {0x17, 0, 0, 0, 0}, {0x90, 'h', 'v', 'c', '1'}} {
+				p := append([]byte(nil), hdr...)
+				p = append(p, randBytes(r.Intn(30))...)
+				for u := 0; u < 1+r.Intn(6); u++ {
+					if r.Intn(4) == 0 {
+						p = append(p, 0, 0, 1)
+					} else {
+						p = append(p, 0, 0, 0, 1)
+					}
+					switch r.Intn(6) {
+					case 0: // empty unit
+					case 1:
+						p = append(p, []byte{0x40, 0x42, 0x44, 0x67, 0x68, 0x26}[r.Intn(6)])
+					case 2:
+						p = append(p, 0x40, 0x01)
+					default:
+						p = append(p, []byte{0x40, 0x42, 0x44, 0x4e, 0x26, 0x02, 0x67, 0x68}[r.Intn(8)], 0x01)
+						p = append(p, randBytes(r.Intn(40))...)
+					}
+				}
+				if r.Intn(3) == 0 {
+					p = append(p, make([]byte, r.Intn(4))...)
+				}
+				for len(p) < 33 && r.Intn(2) == 0 {
+					p = append(p, 0)
+				}
+				add("seq-header-annexb/video", 9, p)
+			}
+		}
 		a := gen.AacSeqHeader(1, 3)
 		for n := 1; n <= len(a); n++ {
 			add("seq-header-truncated/aac", 8, a[:n])
